@@ -145,6 +145,17 @@ def interesting_ints(funcs, lo=-1000, hi=100000):
                     v = c.value
                 elif isinstance(c, ast.Name) and isinstance(f.module.assigns.get(c.id), ast.Constant):
                     v = f.module.assigns[c.id].value     # a module-level constant used by name
+                elif isinstance(c, ast.Attribute) and isinstance(c.value, ast.Name) and f.cls is not None and \
+                        c.value.id in ("self", "cls", "__class__", f.cls.name):
+                    from .model import mangle as _mangle
+                    v = None                              # a class-level constant used through the instance / the class
+                    for ci in f.cls.mro():
+                        e = ci.attrs.get(_mangle(c.attr, ci.name))
+                        if isinstance(e, ast.Constant):
+                            v = e.value
+                            break
+                    if v is None:
+                        continue
                 else:
                     continue
                 if isinstance(v, int) and not isinstance(v, bool) and lo <= v <= hi:
